@@ -77,7 +77,9 @@ def gen(rng, tier, i):
             cmd(op if o == 'me' else 'as %s %s' % (o, op))
         elif r < 0.62 and len(owners) > 1:
             o = rng.choice(owners[1:]); owners.remove(o)
-            cmd('dest ' + o)
+            # destruct, or reload_object(): both drop every call_out of the object (a reloaded object forgets its tag,
+            # so it is not used as an owner again)
+            cmd(('dest ' if rng.random() < 0.6 else 'reload ') + o)
         elif r < 0.9:
             g = rng.random()
             if g < 0.3: p.cycle(tick(1000000))
@@ -129,7 +131,7 @@ def check(plan, res):
         elif w[0] == 'CO':
             if w[2] in entries: entries[w[2]]['fires'].append((idx, e.cycle, int(kv['t'])))
             else: v.append(Violation(PROP, 'phantom', 'call_out %s fired but was never scheduled' % w[2], PROP + '/fired/never-scheduled'))
-        elif w[0] in ('DEST', 'QUIT') and len(w) > 1:
+        elif w[0] in ('DEST', 'QUIT', 'RELOAD') and len(w) > 1:
             gone.setdefault(w[1], idx)
     # which COSETs happened inside a call_out callback (between a CO record and the end of that evaluation)?
     # -> used only for the evidence probes
@@ -200,7 +202,7 @@ def check(plan, res):
         exp = next(((ti, tc, T) for ti, tc, T in ticks if ti > en['idx'] and T >= en['due']), None)
         if owner_gone:
             if fires and fires[0][0] > gone[en['owner']]:
-                v.append(Violation(PROP, 'destructed-fired', 'call_out %s of destructed object %s fired' % (cid, en['owner']), PROP + '/fired/owner-destructed'))
+                v.append(Violation(PROP, 'destructed-fired', 'call_out %s of destructed (or reloaded) object %s fired' % (cid, en['owner']), PROP + '/fired/owner-destructed'))
             if exp is None or gone[en['owner']] < exp[0]: continue
         if fires:
             fi, fc, fT = fires[0]
